@@ -29,15 +29,16 @@ VARIABLES l,        \* next line of the trace
           obs,      \* the IMPLEMENTATION's observations in this run: popped requests, first error
           famid, famref,
           armed,    \* C11 mode: comparisons start after the first parse error the implementation reports
+          held,     \* C12 (relational): tags received and not yet seen on a delivered request, in arrival order
           nbad
 
-vars == <<l, c, run, cmp, consumed, souts, obs, famid, famref, armed, nbad>>
+vars == <<l, c, run, cmp, consumed, souts, obs, famid, famref, armed, held, nbad>>
 
 NoObs == [reqs |-> <<>>, err |-> R_Ok]
 
 Init == /\ l = 1 /\ c = InitConn(<<0>>) /\ run = 0 /\ cmp = {}
         /\ consumed = <<>> /\ souts = <<>> /\ obs = NoObs
-        /\ famid = 0 /\ famref = NoObs /\ armed = TRUE /\ nbad = 0
+        /\ famid = 0 /\ famref = NoObs /\ armed = TRUE /\ held = <<>> /\ nbad = 0
 
 Ev(e) == l <= Len(Rec) /\ Rec[l].e = e /\ l' = l + 1
 
@@ -74,7 +75,7 @@ TNew == /\ Ev("new")
         /\ c' = InitConn(Rec[l].limit)
         /\ run' = Rec[l].run /\ cmp' = ToSet(Rec[l].cmp)
         /\ consumed' = <<>> /\ souts' = <<>> /\ obs' = NoObs
-        /\ armed' = ~("c11" \in ToSet(Rec[l].cmp))
+        /\ armed' = ~("c11" \in ToSet(Rec[l].cmp)) /\ held' = <<>>
         /\ UNCHANGED <<famid, famref, nbad>>
 
 TRead ==
@@ -94,6 +95,11 @@ TRead ==
                       \/ f = "res" /\ ~ResEq(ev.res, r.res)
                       \/ f = "popped" /\ ~ReqsEq(ev.popped, r.c.parsed)
                       \/ f = "files" /\ ~FilesEq(ev.popped, r.c.parsed)
+                      \* C12, judged on the implementation's own completion events (no grammar involved):
+                      \* the first request delivered by this read carries every tag received since the
+                      \* last delivery, in arrival order; further requests of the same read carry none
+                      \/ f = "files_rel" /\ Len(ev.popped) > 0
+                            /\ ~(ev.popped[1].files = held \o ev.fds /\ \A i \in 2..Len(ev.popped) : ev.popped[i].files = <<>>)
                       \/ f = "recvs" /\ ~(ev.recvs = 1 /\ ev.writes = 0)
                       \/ f = "window" /\ ev.window # BUF - Len(c.buf)
                       \/ f = "pending" /\ ev.pending # PendingWrite(r.c)
@@ -104,6 +110,7 @@ TRead ==
           /\ c' = IF c11reset THEN [InitConn(c.limit) EXCEPT !.respQ = r.c.respQ, !.respBuf = r.c.respBuf]
                   ELSE PopAll(r.c)
           /\ armed' = (armed \/ c11reset)
+          /\ held' = IF ev.res.k = "ParseError" \/ Len(ev.popped) > 0 THEN <<>> ELSE held \o ev.fds
           /\ consumed' = IF isErr \/ c11reset THEN <<>> ELSE cons2
           /\ souts' = IF isErr \/ c11reset THEN <<>> ELSE souts2
           /\ obs' = [reqs |-> obs.reqs \o StripFiles(ev.popped),
@@ -115,7 +122,7 @@ TRead ==
 TEnq == /\ Ev("enq")
         /\ c' = Enqueue(c, Rec[l].ser)
         /\ Report({f \in cmp : f = "pending" /\ Rec[l].pending # TRUE}, [exp |-> TRUE, got |-> Rec[l].pending])
-        /\ UNCHANGED <<run, cmp, consumed, souts, obs, famid, famref, armed>>
+        /\ UNCHANGED <<run, cmp, consumed, souts, obs, famid, famref, armed, held>>
 
 TWrite ==
     /\ Ev("write")
@@ -139,7 +146,7 @@ TWrite ==
        IN /\ c' = w.c
           /\ Report(bads, [exp |-> [res |-> w.res, calls |-> w.calls, sent |-> w.sent, pending |-> PendingWrite(w.c), offered |-> NextWriteLen(c)],
                            got |-> [res |-> ev.res, calls |-> ev.calls, sent |-> ev.sent, pending |-> ev.pending, offered |-> ev.offered]])
-    /\ UNCHANGED <<run, cmp, consumed, souts, obs, famid, famref, armed>>
+    /\ UNCHANGED <<run, cmp, consumed, souts, obs, famid, famref, armed, held>>
 
 TEnd ==
     /\ Ev("end")
@@ -155,9 +162,19 @@ TEnd ==
        IN /\ famid' = IF newfam THEN ev.fam ELSE famid
           /\ famref' = IF newfam THEN obs ELSE famref
           /\ Report(bads, [exp |-> [fam |-> famref, whole |-> w], got |-> [fam |-> obs, souts |-> NoFiles(souts), fd_delta |-> ev.fd_delta]])
-    /\ UNCHANGED <<c, run, cmp, consumed, souts, obs, armed>>
+    /\ UNCHANGED <<c, run, cmp, consumed, souts, obs, armed, held>>
 
-Next == TNew \/ TRead \/ TEnq \/ TWrite \/ TEnd
+\* C11, relational: the connection that has reported a parse error and a NEW connection (same limit) were
+\* fed the same input from then on; everything observable must be the same (requests with their
+\* descriptors, results, interim/other output written, pending flag).  No grammar is involved.
+SameReqs(a, b) == Len(a) = Len(b) /\ \A i \in 1..Len(a) : ReqEq(a[i], b[i]) /\ a[i].files = b[i].files
+TC11 == /\ Ev("c11cmp")
+        /\ LET m == Rec[l].main  f == Rec[l].fresh
+               same == m.res = f.res /\ SameReqs(m.popped, f.popped) /\ m.drained = f.drained /\ m.pending = f.pending
+           IN Report(IF same THEN {} ELSE {"c11rel"}, [main |-> m, fresh |-> f])
+        /\ UNCHANGED <<c, run, cmp, consumed, souts, obs, famid, famref, armed, held>>
+
+Next == TNew \/ TRead \/ TEnq \/ TWrite \/ TEnd \/ TC11
 Spec == Init /\ [][Next]_vars
 
 \* every state of every validated trace satisfies the structural invariant of the machine
